@@ -1,5 +1,6 @@
 //! `RoaringTreemap` mutation / query ops (C10), 64-bit iterators (C12); `tdump` is the canonical observable.
 use super::*;
+use roaring::MultiOps;
 
 pub fn tdump_set(t: &RoaringTreemap) -> String {
     let mut h = FNV_BASIS;
@@ -276,6 +277,106 @@ pub fn handle(st: &mut State, toks: &[&str]) -> HResult {
                 h = fnv_step(h, v);
             }
             Some(format!("n={} h={:016x}", n, h))
+        }
+        // ---- algebra (C11)
+        [op @ ("tor" | "tand" | "tsub" | "txor"), form, d, l, r] => {
+            let i = slot('t', d)?;
+            let a = st.tm[slot('t', l)?].as_ref()?.clone();
+            let b = st.tm[slot('t', r)?].as_ref()?.clone();
+            let (na, nb) = (a.bitmaps().count(), b.bitmaps().count());
+            macro_rules! forms {
+                ($o:tt, $oa:tt) => {
+                    match *form {
+                        "oo" => a $o b,
+                        "or" => a $o &b,
+                        "ro" => &a $o b,
+                        "rr" => &a $o &b,
+                        "ao" => {
+                            let mut x = a;
+                            x $oa b;
+                            x
+                        }
+                        "ar" => {
+                            let mut x = a;
+                            x $oa &b;
+                            x
+                        }
+                        _ => return None,
+                    }
+                };
+            }
+            let res = match *op {
+                "tor" => forms!(|, |=),
+                "tand" => forms!(&, &=),
+                "tsub" => forms!(-, -=),
+                _ => forms!(^, ^=),
+            };
+            let out = format!("ok {},{}->{}", na, nb, res.bitmaps().count());
+            st.tm[i] = Some(res);
+            Some(out)
+        }
+        [op @ ("tis_subset" | "tis_superset" | "tis_disjoint" | "tinter_len" | "tunion_len" | "tdiff_len" | "txor_len"), l, r] => {
+            let a = st.tm[slot('t', l)?].as_ref()?;
+            let b = st.tm[slot('t', r)?].as_ref()?;
+            Some(match *op {
+                "tis_subset" => a.is_subset(b).to_string(),
+                "tis_superset" => a.is_superset(b).to_string(),
+                "tis_disjoint" => a.is_disjoint(b).to_string(),
+                "tinter_len" => a.intersection_len(b).to_string(),
+                "tunion_len" => a.union_len(b).to_string(),
+                "tdiff_len" => a.difference_len(b).to_string(),
+                _ => a.symmetric_difference_len(b).to_string(),
+            })
+        }
+        ["tmulti", op, kind, d, items @ ..] => {
+            if !matches!(*op, "or" | "and" | "sub" | "xor") {
+                return None;
+            }
+            let i = slot('t', d)?;
+            let mut parsed: Vec<Result<usize, u64>> = Vec::new();
+            for t in items.iter().rev() {
+                // (parsed right to left like the driver, so that the same token decides `bad-op`)
+                if let Some(e) = t.strip_prefix("err:") {
+                    parsed.push(Err(e.parse::<u64>().ok()?));
+                } else {
+                    let k = slot('t', t)?;
+                    st.tm[k].as_ref()?;
+                    parsed.push(Ok(k));
+                }
+            }
+            parsed.reverse();
+            let is_res = match *kind {
+                "own" | "ref" => false,
+                "res_own" | "res_ref" => true,
+                _ => return None,
+            };
+            if !is_res && parsed.iter().any(|p| p.is_err()) {
+                return None;
+            }
+            let tm = &st.tm;
+            macro_rules! run {
+                ($it:expr) => {
+                    match *op {
+                        "or" => $it.union(),
+                        "and" => $it.intersection(),
+                        "sub" => $it.difference(),
+                        _ => $it.symmetric_difference(),
+                    }
+                };
+            }
+            let res: Result<RoaringTreemap, u64> = match *kind {
+                "own" => Ok(run!(parsed.iter().map(|p| tm[*p.as_ref().unwrap()].as_ref().unwrap().clone()))),
+                "ref" => Ok(run!(parsed.iter().map(|p| tm[*p.as_ref().unwrap()].as_ref().unwrap()))),
+                "res_own" => run!(parsed.iter().map(|p| p.map(|k| tm[k].as_ref().unwrap().clone()))),
+                _ => run!(parsed.iter().map(|p| p.map(|k| tm[k].as_ref().unwrap()))),
+            };
+            Some(match res {
+                Ok(v) => {
+                    st.tm[i] = Some(v);
+                    "ok".to_string()
+                }
+                Err(e) => format!("err:{}", e),
+            })
         }
         _ => None,
     }
